@@ -410,17 +410,21 @@ case_ts_detect(void) {
 static void
 grp_ts_detect(void) {
 	static const size_t PS[] = { 188, 192, 204, 208, 100 };
-	static const uint16_t PID[] = { 0x100, 0, 0x1fff };
-	static const long EX[] = { -1, 0, 1, 20, 207, 208, 209 };
+	static const uint16_t PID[] = { 0x100, 0, 0x1fff, 0x11, 0x12, 1, 2 };
+	static const long EX[] = { -21, -20, -19, -12, -5, -1, 0, 1, 20, 207, 208, 209 };
 	static const uint8_t AC[] = { 0x10, 0x20, 0x30 };
-	int ps, np, pid, ex, ac, ph, i;
+	/* adaptation field length of the LAST packet: around "fills the packet" for every accepted packet size */
+	static const uint8_t AFL[] = { 183, 0, 1, 170, 179, 180, 181, 182, 184, 185, 187, 190, 195, 199, 200, 201, 203, 255 };
+	int ps, np, pid, ex, ac, ph, i, afl;
 	size_t size, at;
 
 	vh_set_describer(c13_describe_ts);
 	p_off = 0;
 	/* np sync bytes spaced ps apart starting at phase ph, buffer = (np-1)*ps + 208 + extra bytes */
-	for (ps = 0; ps < 5; ps ++) for (np = 0; np <= 3; np ++) for (pid = 0; pid < 3; pid ++) for (ac = 0; ac < 3; ac ++)
-	for (ex = 0; ex < 7; ex ++) for (ph = 0; ph < 2; ph ++) {
+	for (ps = 0; ps < 5; ps ++) for (np = 0; np <= 3; np ++) for (pid = 0; pid < 7; pid ++) for (ac = 0; ac < 3; ac ++)
+	for (ex = 0; ex < 12; ex ++) for (ph = 0; ph < 2; ph ++) for (afl = 0; afl < 18; afl ++) {
+		if (afl > 0 && (0 == np || 0x30 != AC[ac]))
+			continue;	/* the length byte only matters with an adaptation field in front of a payload */
 		if (!BEGIN("mpeg2_ts_pkt_size_detect"))
 			continue;
 		size = (size_t)((long)((np ? np - 1 : 0) * PS[ps] + 208 + (size_t)ph) + EX[ex]);
@@ -431,7 +435,7 @@ grp_ts_detect(void) {
 			at = (size_t)ph + (size_t)i * PS[ps];
 			if (at + 5 < sizeof(g_msg)) {
 				g_msg[at] = 0x47; g_msg[at + 1] = (uint8_t)(PID[pid] >> 8); g_msg[at + 2] = (uint8_t)PID[pid];
-				g_msg[at + 3] = AC[ac]; g_msg[at + 4] = (uint8_t)((i & 1) ? 203 : 183);
+				g_msg[at + 3] = AC[ac]; g_msg[at + 4] = (uint8_t)((i == np - 1) ? AFL[afl] : ((i & 1) ? 203 : 183));
 			}
 		}
 		g_len = size; p_cap = PS[ps]; p_a = np; p_b = PID[pid]; p_c = EX[ex];
